@@ -26,6 +26,10 @@ def hostile_schemas(wd):
         ("unique-unknown", "CREATE TABLE t(a, b, UNIQUE(q, a))", False),
         ("morepk-wr", "CREATE TABLE t(a, b, c, d, PRIMARY KEY(d, c, b, a)) WITHOUT ROWID", True),
         ("collate-unknown", "CREATE TABLE t(a COLLATE klingon PRIMARY KEY, b) WITHOUT ROWID", True),
+        # ... with text in the key column, so that the collation would really be called (a database written by an application that
+        # registered its own collation is legal SQLite output), also only in the index
+        ("text-collate-unknown", "CREATE TABLE t(a TEXT COLLATE klingon PRIMARY KEY, b) WITHOUT ROWID", True),
+        ("text-collate-unknown-rowid", "CREATE TABLE t(a TEXT COLLATE klingon, b COLLATE vulcan, PRIMARY KEY(a))", False),
         ("empty", "", False), ("garbage", "CREATE TABLE t(((((", False), ("index-as-table", "CREATE INDEX t ON t(a)", False),
         ("dup-rowid", "CREATE TABLE t(a INTEGER PRIMARY KEY, a INTEGER PRIMARY KEY)", False),
         # texts that describe more (or fewer) columns than the stored records have, with the rowid alias at every position
@@ -42,7 +46,7 @@ def hostile_schemas(wd):
         c = sqlfmt.new_db(path, 512)
         c.execute("CREATE TABLE t(a, b, PRIMARY KEY(a))" + (" WITHOUT ROWID" if wr else ""))
         c.execute("CREATE INDEX t_b ON t(b)")
-        c.executemany("INSERT INTO t VALUES(?, ?)", [(i, "v%d" % (i % 7)) for i in range(60)])
+        c.executemany("INSERT INTO t VALUES(?, ?)", [(("k%03d" % i) if name.startswith("text-") else i, "v%d" % (i % 7)) for i in range(60)])
         c.execute("PRAGMA writable_schema=ON")
         c.execute("UPDATE sqlite_master SET sql=? WHERE name='t'", (sql,))
         if name == "index-as-table":
@@ -138,7 +142,7 @@ def check(run):
     # 0. earlier failures first
     cdir = os.path.join(core.VERIF, "corpus", "C05")
     generic = [("master", "master"), ("names", "names"), ("t/columns", "columns t"), ("t/select", "select t 0 a"), ("t/select_b", "select t 0 a,b"), ("t/pk", "pkselect t i5 a"),
-               ("t/pk0", "pkselect t - a"), ("t/selectrowid", "selectrowid t 5 a"), ("t/iselect", "iselect t t_b a"), ("t/iselecteq", "iselecteq t t_b tv1 a"), ("scan2", "scan 2 0"), ("iscan2", "iscan 2 0"),
+               ("t/pk0", "pkselect t - a"), ("t/pk_text", "pkselect t t6b303035 a,b"), ("t/selectrowid", "selectrowid t 5 a"), ("t/iselect", "iselect t t_b a"), ("t/iselecteq", "iselecteq t t_b tv1 a"), ("scan2", "scan 2 0"), ("iscan2", "iscan 2 0"),
                ("scan3", "scan 3 0"), ("iscan3", "iscan 3 0"), ("rowid2", "rowid 2 1"),
                ("t/select_id", "select t 0 id"), ("t/select_more", "select t 0 c,d,id,a"), ("t/select_cid", "select t 2 c,id"), ("t/selectrowid_id", "selectrowid t 5 id,c"),
                ("t/pk_id", "pkselect t i5 id,c"), ("t/iselect_id", "iselect t t_b id,c"), ("t/iselecteq_id", "iselecteq t t_b tv1 c,id"), ("t/select_rowid", "select t 0 rowid,id,c")]
@@ -189,10 +193,22 @@ def check(run):
             open(path, "wb").write(data)
             cases.append(("l/%d/%d" % (bi, m), path, opl, "%s: %s" % (db.desc, what)))
             dist["directed_lengths"] += 1
+    # 2d. two cells sharing one overflow chain (each length as SQLite wrote it)
+    dist["shared_chains"] = 0
+    for bi, db in enumerate(bases):
+        opl = op_lines(db, dumps, bi, quick)
+        sc = mutate.shared_chains(db.data, db.page_size)
+        if quick:
+            sc = sc[:10]
+        for m, (data, what) in enumerate(sc):
+            path = os.path.join(wd, "m-s%d-%d.db" % (bi, m))
+            open(path, "wb").write(data)
+            cases.append(("s/%d/%d" % (bi, m), path, opl, "%s: %s" % (db.desc, what)))
+            dist["shared_chains"] += 1
     # run in batches so that a crash or a hang costs one batch; low level operations also through the model
     desc = {c[0]: c for c in cases}
     B = 40
-    want = (lambda cid: True) if not quick else (lambda cid: not cid.startswith(("m/", "d/", "l/")) or hash_even(cid))
+    want = (lambda cid: True) if not quick else (lambda cid: not cid.startswith(("m/", "d/", "l/", "s/")) or hash_even(cid))
     from concurrent.futures import ThreadPoolExecutor
     starts = list(range(0, len(cases), B))
     with ThreadPoolExecutor(max_workers=6) as ex:
